@@ -378,3 +378,163 @@ def run(ctx):  # noqa: F811
     _run_c12(ctx)
     m = ctx.model
     r12_4(ctx, m, m.cls(LH, "Likelihood"), m.module(IMPL))
+
+
+# --------------------------------------------------------------------------- R12.5
+class _JaxScalar:
+    """per-entry reading of the scalar likelihood formulas of nifty.re.likelihood_impl (real-valued case)"""
+
+    def __init__(self, sp, mod):
+        self.sp = sp
+        self.mod = mod
+        self.Ni = sp.Symbol("Ni", positive=True)
+
+    class NU(Exception):
+        pass
+
+    def ev(self, e, env):
+        sp = self.sp
+        if isinstance(e, ast.Constant):
+            if isinstance(e.value, (int, float)) and not isinstance(e.value, bool):
+                return sp.nsimplify(e.value)
+            if e.value is None:
+                return None
+            raise self.NU(src(e))
+        if isinstance(e, ast.Name):
+            if e.id in env:
+                return env[e.id]
+            raise self.NU(f"name {e.id}")
+        if isinstance(e, ast.Attribute):
+            t = src(e)
+            if t in env:
+                return env[t]
+            if e.attr == "real":
+                return self.ev(e.value, env)
+            raise self.NU(t)
+        if isinstance(e, ast.UnaryOp) and isinstance(e.op, ast.USub):
+            return -self.ev(e.operand, env)
+        if isinstance(e, ast.BinOp):
+            a, b = self.ev(e.left, env), self.ev(e.right, env)
+            ops = {ast.Add: lambda: a + b, ast.Sub: lambda: a - b, ast.Mult: lambda: a * b, ast.Div: lambda: a / b, ast.Pow: lambda: a ** b}
+            if type(e.op) in ops:
+                return ops[type(e.op)]()
+            raise self.NU(src(e))
+        if isinstance(e, ast.Call):
+            nm = call_name(e)
+            f = src(e.func)
+            if f == "self.noise_cov_inv" and len(e.args) == 1:
+                return self.Ni * self.ev(e.args[0], env)
+            if f == "self.noise_std_inv" and len(e.args) == 1:
+                return sp.sqrt(self.Ni) * self.ev(e.args[0], env)
+            if nm == "vdot" and len(e.args) == 2:
+                return self.ev(e.args[0], env) * self.ev(e.args[1], env)
+            if nm == "sum" and len(e.args) == 1:
+                return self.ev(e.args[0], env)
+            if nm == "tree_map" and len(e.args) == 2:
+                g = {"log": sp.log, "log1p": lambda z: sp.log(1 + z), "exp": sp.exp, "sqrt": sp.sqrt}.get(src(e.args[0]).split(".")[-1])
+                if g is None:
+                    raise self.NU(src(e))
+                return g(self.ev(e.args[1], env))
+            if nm == "conj" and isinstance(e.func, ast.Attribute) and not e.args:
+                return self.ev(e.func.value, env)
+            if isinstance(e.func, ast.Attribute) and isinstance(e.func.value, ast.Name) and e.func.value.id == "self" and hasattr(self, "cls") \
+                    and e.func.attr in self.cls.methods:
+                callee = self.cls.methods[e.func.attr]
+                ps = callee.params()[1:]
+                env2 = {k: v for k, v in env.items() if k.startswith("self.")}
+                for p_, a in zip(ps, e.args):
+                    env2[p_] = self.ev(a, env)
+                return self.body(callee.node, env2)
+            callee = self.mod.functions.get(nm) if isinstance(e.func, ast.Name) else None
+            if callee is not None:
+                ps = callee.params()
+                env2 = {k: v for k, v in env.items() if k.startswith("self.")}
+                for p_, a in zip(ps, e.args):
+                    env2[p_] = self.ev(a, env)
+                return self.body(callee.node, env2)
+            raise self.NU(src(e))
+        raise self.NU(src(e))
+
+    def body(self, fn, env):
+        env = dict(env)
+        for st in fn.body:
+            if isinstance(st, ast.Expr):
+                continue
+            if isinstance(st, ast.Assign) and len(st.targets) == 1 and isinstance(st.targets[0], ast.Name):
+                env[st.targets[0].id] = self.ev(st.value, env)
+                continue
+            if isinstance(st, ast.Return):
+                return self.ev(st.value, env)
+            raise self.NU(f"statement `{short(st)}`")
+        raise self.NU("no return")
+
+
+def r12_5(ctx, m):
+    from .c03 import _load_sympy
+    sp = _load_sympy()
+    ctx.rule("R12.5", "one-parameter JAX likelihoods (Gaussian, StudentT, Poissonian; real case, per entry): metric(p, t)/t equals the "
+                      "expectation over the data of d^2 energy/dp^2 (Fisher information), equals (left_sqrt_metric(p, t)/t)^2 and equals "
+                      "(d transformation/dp)^2; the normalised residual is the left square root applied to data - primals", floor=9)
+    if sp is None:
+        ctx.und("R12.5", f"{IMPL}::sympy", "sympy not importable", IMPL)
+        return
+    mod = m.module(IMPL)
+    table = {
+        "Gaussian": (None, None, "second derivative does not depend on the data"),
+        "Poissonian": ("P", None, "E[d] = lambda for Poisson counts"),
+        "StudentT": (None, "Ni*(dof+1)/(dof+3)", "Fisher information of the location of a Student-t (dof, scale 1/sqrt(Ni))"),
+    }
+    for cname, (dsub, fisher_const, why) in table.items():
+        C = m.cls(IMPL, cname)
+        ctx.saw_class(C)
+        rdr = _JaxScalar(sp, mod)
+        rdr.cls = C
+        P, T, D, dof = sp.Symbol("P", positive=True), sp.Symbol("T", real=True), sp.Symbol("D", real=True), sp.Symbol("dof", positive=True)
+        env0 = {"self.data": D, "self.dof": dof}
+        key = f"{C.key}::metric = Fisher information = left_sqrt^2 = (d transformation)^2"
+        try:
+            need = ("energy", "metric", "left_sqrt_metric", "transformation", "normalized_residual")
+            if any(n_ not in C.methods for n_ in need):
+                ctx.und("R12.5", key, f"methods missing: {[n_ for n_ in need if n_ not in C.methods]}", C)
+                continue
+            for n_ in need:
+                ctx.saw_func(C.methods[n_])
+
+            def call(name, *args):
+                fi = C.methods[name]
+                env = dict(env0)
+                for p_, a in zip(fi.params()[1:], args):
+                    env[p_] = a
+                return rdr.body(fi.node, env)
+            E = call("energy", P)
+            M = call("metric", P, T)
+            Lq = call("left_sqrt_metric", P, T)
+            Tr = call("transformation", P)
+            Nr = call("normalized_residual", P)
+        except _JaxScalar.NU as exc:
+            ctx.und("R12.5", key, f"term not understood: {exc}", C)
+            continue
+        Epp = sp.diff(E, P, 2)
+        if fisher_const is not None:
+            fisher = sp.sympify(fisher_const, locals={"Ni": rdr.Ni, "dof": dof})
+        else:
+            fisher = Epp.subs(D, P) if dsub == "P" else Epp
+        mcoef = sp.simplify(M / T)
+        ok1 = sp.simplify(mcoef - fisher) == 0
+        ok2 = sp.simplify((Lq / T) ** 2 - mcoef) == 0
+        ok3 = sp.simplify(sp.diff(Tr, P) ** 2 - mcoef) == 0
+        Lres = call("left_sqrt_metric", P, D - P)
+        ok4 = sp.simplify(Nr - Lres) == 0
+        det = f"metric/t = {mcoef}; Fisher = {sp.simplify(fisher)} [{why}]; (left_sqrt/t)^2 = {sp.simplify((Lq / T) ** 2)}; (dT/dp)^2 = {sp.simplify(sp.diff(Tr, P) ** 2)}"
+        ctx.check("R12.5", f"{C.key}::metric coefficient equals the Fisher information of the energy", bool(ok1), det, C)
+        ctx.check("R12.5", f"{C.key}::left_sqrt_metric squared equals the metric", bool(ok2), det, C)
+        ctx.check("R12.5", f"{C.key}::squared derivative of the transformation equals the metric", bool(ok3), det, C)
+        ctx.check("R12.5", f"{C.key}::normalised residual = left_sqrt_metric(primals, data - primals)", bool(ok4), f"normalized_residual = {Nr}; left_sqrt(data - primals) = {Lres}", C)
+
+
+_run_c12b = run
+
+
+def run(ctx):  # noqa: F811
+    _run_c12b(ctx)
+    r12_5(ctx, ctx.model)
